@@ -450,6 +450,17 @@ def event_driver(chk, scheme, ham, direction, max_steps, budget):
                     arrs = [x for x in a if hasattr(x, 'shape') and getattr(x, 'shape', None) == (1,)]
                     if not (any(same(x, s['y']) for x in arrs) and any(same(x, s['yh']) for x in arrs)):
                         struct.append('refinement not given the end states of the bracketing step')
+                    # ... and, where the refinement takes them, the derivatives AT those two end states and the stage matrix of that very step
+                    # (a stale derivative or the stages of another step make the dense interpolant, and so the hit, wrong)
+                    rname = refs[0][0]
+                    if rname in ('hermite', 'dop853', 'dop853h'):
+                        F = lambda yv: D.vec('F', dim, *[Sym.lift(v) for v in np.asarray(yv).reshape(-1)])
+                        if not (any(same(x, F(s['y'])) for x in arrs) and any(same(x, F(s['yh'])) for x in arrs)):
+                            struct.append('refinement not given the field values at the two ends of the bracketing step')
+                    if rname in ('rk45', 'dop853', 'dop853h') and 'K' in s:
+                        mats = [x for x in a if hasattr(x, 'shape') and getattr(x, 'shape', None) == np.asarray(s['K']).shape]
+                        if not any(same(x, s['K']) for x in mats):
+                            struct.append('refinement not given the stage derivatives of the bracketing step')
                     th, yh = refs[0][1][0], None
                     if not same(r[1], opaque('t_hit', *[Sym.lift(x) for x in nums[:3]])):
                         struct.append('reported hit time is not the refined time')
